@@ -4,7 +4,8 @@
   PROVED on the executable model of `lonlat_to_cell` (a full IEEE-double port, compared bit for bit with the implementation),
   for every pair of doubles and every resolution: resolution −1 gives the world cell; for 0..29 a returned id is a valid id of
   exactly that resolution (the estimator's index is in range for ANY floating-point input — `ij_to_s` range theorem, generic in
-  the scalar type); the answer is the code of one of the sampled estimates.
+  the scalar type); the answer is the code of one of the sampled estimates, and it passes the library's own containment test for the
+  query point unless no sampled candidate does (`contains_or_fallback`).
   ASSUMED (numeric, swept every run with an independent spherical point-in-polygon oracle): H-contain — the returned cell's
   published ring encloses the point up to tolerance; H-noraise — no float callee raises; H-periodic — 360° periodicity in longitude.
 -/
@@ -32,6 +33,16 @@ theorem estimates_well_formed (lon lat : Float) (r : Int) (e : Est) (h : lonlatT
 /-- the search inspects the point itself and 25 spiral offsets -/
 theorem sample_count (lon lat : Float) (hres : Nat) : (samples (lon, lat) hres).length = 26 := by
   simp [samples]
+
+/-- C01 (4), decision logic: at every Hilbert resolution (2..29) the returned id either is a cell that passes the library's own containment
+    test `a5cell_contains_point(cell, point) > 0` for the QUERY POINT ITSELF, or — only when none of the 26 sampled candidates passes
+    it — is one of those failing candidates (the nearest-miss fallback).  So the numeric content of C01 is exactly: the planar
+    containment test agrees with the published ring, and some sampled candidate passes it. -/
+theorem contains_or_fallback (lon lat : Float) (r : Int) (hr : 2 ≤ r) (id : Nat) (h : lonlatToCell (lon, lat) r = .ok id) :
+    (∃ (e : Est) (d : Float), serialize e.toCell = .ok id ∧ cellContainsPoint e.toCell (lon, lat) = .ok d ∧ d > 0) ∨
+    (∃ cells : List (Est × Float), (∀ c ∈ cells, cellContainsPoint c.1.toCell (lon, lat) = .ok c.2 ∧ ¬ c.2 > 0) ∧
+        ∃ b ∈ cells, serialize b.1.toCell = .ok id) :=
+  lonlatToCell_decision (lon, lat) r hr id h
 
 /-- the full-strength containment statement kept visible (not proved: numeric) -/
 def ContainmentStatement (contains : Nat → Float → Float → Prop) : Prop :=
